@@ -85,15 +85,27 @@ def mkframe(it, name, cols, base=None):
                     raise PyExc('KeyError', c)
             sub = mkframe(it2, '%s[%s]' % (name, ','.join(k)), k, base=self.attrs['base'])
             sub.attrs['__len__'] = self.attrs['__len__']
+            sub.attrs['sorted_by'] = self.attrs.get('sorted_by')
             return sub
         if isinstance(k, SObj) and k.cls == 'mask':
             if k.attrs['frame'] != name:
                 raise PyExc('IndexingError', 'mask of another frame')
-            return mkframe(it2, name + '|cond', cols)
+            flt = mkframe(it2, name + '|cond', cols, base=self.attrs['base'] + '|cond')
+            flt.attrs['sorted_by'] = self.attrs.get('sorted_by')
+            return flt
         raise Unsupported('frame subscript %r' % (k,))
     f.methods['__getitem__'] = Builtin(getitem, 'DataFrame.__getitem__')
-    f.methods['sort_values'] = Builtin(lambda it2, self, by, **kw: it2.ghost.setdefault('sorted', []).append(
-        (self.attrs['frame_name'], list(by))), 'sort_values')
+    def sort_values(it2, self, by, inplace=False, **kw):
+        # in place: this frame is now sorted; otherwise a sorted copy is returned and this frame stays as it was
+        if inplace is True:
+            self.attrs['sorted_by'] = list(by)
+            return None
+        cp = mkframe(it2, self.attrs['frame_name'], cols, base=self.attrs['base'])
+        cp.attrs['__len__'] = self.attrs['__len__']
+        cp.attrs['sorted_by'] = list(by)
+        return cp
+    f.attrs['sorted_by'] = None
+    f.methods['sort_values'] = Builtin(sort_values, 'sort_values')
     f.methods['reindex'] = Builtin(lambda it2, self: self, 'reindex')
     it.ghost.setdefault('frames', {})[name] = f
     return f
@@ -246,7 +258,7 @@ def frames_agree(it, check_types, check_extra_cols, check_order, check_data, con
 
 
 @specfn
-def data_compared_as_selected(it, check_data, check_types, condition, result):
+def data_compared_as_selected(it, check_data, check_types, condition, result, sortby=None):
     """When the cell comparison runs, it is given the selected data columns of the (filtered) frames."""
     calls = it.ghost.get('ddiff', [])
     env = dict(check_types=check_types, check_extra_cols=None, check_order=None, check_data=check_data)
@@ -259,7 +271,14 @@ def data_compared_as_selected(it, check_data, check_types, condition, result):
         return False
     a, b = calls[0]
     suffix = '|cond' if condition is not None else ''
-    return (list(a.attrs['__iter__']) == want and list(b.attrs['__iter__']) == want
+    # both frames in the same row order: sorted on the same keys when sortby is given (and usable), untouched otherwise
+    keys = None
+    if sortby:
+        keys = list(sortby) if isinstance(sortby, list) else None
+        if keys is not None and any(c in keys for c in missing):
+            keys = None
+    same_order = a.attrs.get('sorted_by') == b.attrs.get('sorted_by') == keys
+    return (list(a.attrs['__iter__']) == want and list(b.attrs['__iter__']) == want and same_order
             and a.attrs['base'] == 'df' + suffix and b.attrs['base'] == 'ref' + suffix)
 
 
@@ -286,7 +305,7 @@ _CD_ENS = [('passes-exactly-when-the-checked-structure-and-values-agree',
            ('types-compared-at-the-requested-level', 'type_level_ok(type_matching)'),
            ('failures-is-0-or-1', 'result.failures == 0 or result.failures == 1'),
            ('cell-comparison-gets-the-selected-columns-of-the-filtered-frames',
-            'data_compared_as_selected(check_data, check_types, condition, result)')]
+            'data_compared_as_selected(check_data, check_types, condition, result, sortby)')]
 
 
 def _cd_contract(key, layouts=None, **flags):
